@@ -98,7 +98,7 @@ def run_inst(spec, run):
             run.obligation(ctx, "id-kept", neg.id != res["mid"], conc)
         if all_bool and res["safe0"]:
             run.obligation(ctx, "solver-safe", not pl.solver_safe(ns, neg), conc)
-        run.validate(ctx, conc, lambda m: {"neg": [S.model_int(m, val.lower), S.model_int(m, val.upper)], "negid": neg.id})
+        run.validate(ctx, conc, lambda m: {"neg": [S.model_int(m, val.lower), S.model_int(m, val.upper)], "negid": neg.id}, extremes=plh.extremes(env), known=kn)
         run.sample({"model": pl.show(model_spec), "via": spec["via"], "path_condition": [str(z3.simplify(c)) for c in ctx.pc][:6],
                     "negation": repr(neg)[:200]})
 
